@@ -455,3 +455,27 @@ func (n *Net) Run(s Scheduler, maxSteps int) {
 
 // Keys helper
 func KeyInts(ids tss.SortedPartyIDs) []*big.Int { return ids.Keys() }
+
+// Channels exposes a node's channels to a concurrent driver (C09).
+func Channels(nd *Node) (out <-chan tss.Message, ecKey <-chan *eckeygen.LocalPartySaveData, edKey <-chan *edkeygen.LocalPartySaveData, sig <-chan *common.SignatureData) {
+	return nd.out, nd.endECKey, nd.endEDKey, nd.endSig
+}
+
+// ResolveDests maps a message's routing to node indices (self excluded), as the simulator does.
+func ResolveDests(n *Net, from int, m tss.Message) []int {
+	var out []int
+	if m.GetTo() == nil {
+		for _, o := range n.Nodes {
+			if o.Idx != from {
+				out = append(out, o.Idx)
+			}
+		}
+		return out
+	}
+	for _, id := range m.GetTo() {
+		if j := n.nodeByID(id); j >= 0 && j != from {
+			out = append(out, j)
+		}
+	}
+	return out
+}
